@@ -58,21 +58,23 @@ Record state := mkSt {
   picked : list (nat * nat);      (* request -> balancer chosen by loadBalancerForRequest *)
   pend : list (nat * pending);
   cmds : list (nat * cphase);
-  ctimeout : list (nat * N)       (* command -> deploy timeout *)
+  ctimeout : list (nat * N);      (* command -> deploy timeout *)
+  owe : list actor                (* probe goroutines that changed a target's state and have still to rebuild the rotation *)
 }.
 
-Definition init : state := mkSt [] [] [] [] [] [] [] [] [] [].
+Definition init : state := mkSt [] [] [] [] [] [] [] [] [] [] [].
 
-Definition set_tgts (s : state) v := mkSt v (bals s) (svcs s) (snames s) (inst s) (routed s) (picked s) (pend s) (cmds s) (ctimeout s).
-Definition set_bals (s : state) v := mkSt (tgts s) v (svcs s) (snames s) (inst s) (routed s) (picked s) (pend s) (cmds s) (ctimeout s).
-Definition set_svcs (s : state) v := mkSt (tgts s) (bals s) v (snames s) (inst s) (routed s) (picked s) (pend s) (cmds s) (ctimeout s).
-Definition set_snames (s : state) v := mkSt (tgts s) (bals s) (svcs s) v (inst s) (routed s) (picked s) (pend s) (cmds s) (ctimeout s).
-Definition set_inst (s : state) v := mkSt (tgts s) (bals s) (svcs s) (snames s) v (routed s) (picked s) (pend s) (cmds s) (ctimeout s).
-Definition set_routed (s : state) v := mkSt (tgts s) (bals s) (svcs s) (snames s) (inst s) v (picked s) (pend s) (cmds s) (ctimeout s).
-Definition set_picked (s : state) v := mkSt (tgts s) (bals s) (svcs s) (snames s) (inst s) (routed s) v (pend s) (cmds s) (ctimeout s).
-Definition set_pend (s : state) v := mkSt (tgts s) (bals s) (svcs s) (snames s) (inst s) (routed s) (picked s) v (cmds s) (ctimeout s).
-Definition set_cmds (s : state) v := mkSt (tgts s) (bals s) (svcs s) (snames s) (inst s) (routed s) (picked s) (pend s) v (ctimeout s).
-Definition set_ctimeout (s : state) v := mkSt (tgts s) (bals s) (svcs s) (snames s) (inst s) (routed s) (picked s) (pend s) (cmds s) v.
+Definition set_tgts (s : state) v := mkSt v (bals s) (svcs s) (snames s) (inst s) (routed s) (picked s) (pend s) (cmds s) (ctimeout s) (owe s).
+Definition set_bals (s : state) v := mkSt (tgts s) v (svcs s) (snames s) (inst s) (routed s) (picked s) (pend s) (cmds s) (ctimeout s) (owe s).
+Definition set_svcs (s : state) v := mkSt (tgts s) (bals s) v (snames s) (inst s) (routed s) (picked s) (pend s) (cmds s) (ctimeout s) (owe s).
+Definition set_snames (s : state) v := mkSt (tgts s) (bals s) (svcs s) v (inst s) (routed s) (picked s) (pend s) (cmds s) (ctimeout s) (owe s).
+Definition set_inst (s : state) v := mkSt (tgts s) (bals s) (svcs s) (snames s) v (routed s) (picked s) (pend s) (cmds s) (ctimeout s) (owe s).
+Definition set_routed (s : state) v := mkSt (tgts s) (bals s) (svcs s) (snames s) (inst s) v (picked s) (pend s) (cmds s) (ctimeout s) (owe s).
+Definition set_picked (s : state) v := mkSt (tgts s) (bals s) (svcs s) (snames s) (inst s) (routed s) v (pend s) (cmds s) (ctimeout s) (owe s).
+Definition set_pend (s : state) v := mkSt (tgts s) (bals s) (svcs s) (snames s) (inst s) (routed s) (picked s) v (cmds s) (ctimeout s) (owe s).
+Definition set_cmds (s : state) v := mkSt (tgts s) (bals s) (svcs s) (snames s) (inst s) (routed s) (picked s) (pend s) v (ctimeout s) (owe s).
+Definition set_ctimeout (s : state) v := mkSt (tgts s) (bals s) (svcs s) (snames s) (inst s) (routed s) (picked s) (pend s) (cmds s) v (owe s).
+Definition set_owe (s : state) v := mkSt (tgts s) (bals s) (svcs s) (snames s) (inst s) (routed s) (picked s) (pend s) (cmds s) (ctimeout s) v.
 
 Definition put_t (s : state) (t : nat) (x : tgt) := set_tgts s (nset (tgts s) t x).
 Definition put_b (s : state) (l : nat) (x : bal) := set_bals s (nset (bals s) l x).
@@ -124,6 +126,9 @@ Definition opt_actor_is (o : option actor) (a : actor) : bool :=
     and whose waiters that goroutine has still to release *)
 Definition becoming (tg : list (nat * tgt)) (a : actor) (ts : list nat) : option nat :=
   find (fun t => match nget tg t with Some x => opt_actor_is (t_by x) a | None => false end) ts.
+
+Definition owes (l : list actor) (a : actor) : bool := existsb (actor_eqb a) l.
+Definition unowe (l : list actor) (a : actor) : list actor := filter (fun b => negb (actor_eqb a b)) l.
 
 Definition waiter_is (tg : list (nat * tgt)) (v : bool) (t : nat) : bool :=
   match nget tg t with
@@ -208,7 +213,9 @@ Definition step_gen (pinned : bool) (s : state) (e : event) : option state :=
   | KProbeApply t ok prev new =>
     match nget (tgts s) t with
     | Some x =>
-      if tstate_eqb new (probe_next (t_st x) ok) then
+      (* a goroutine that saw a state change rebuilds the rotation before its next probe result *)
+      if tstate_eqb new (probe_next (t_st x) ok) && negb (owes (owe s) a) then
+        let s := if tstate_eqb prev new then s else set_owe s (a :: owe s) in
         let x1 := tg_st (if ok then tg_pok x true else x) new in
         if ok && tstate_eqb (t_st x) TAdding then
           (* becameHealthy: the unsynchronised read of the previous state must have seen "adding",
@@ -224,7 +231,7 @@ Definition step_gen (pinned : bool) (s : state) (e : event) : option state :=
     match nget (bals s) lb with
     | Some b =>
       if nlist_eqb hs (healthy_of (tgts s) (b_ts b)) then
-        let s1 := put_b s lb (bl_rot b hs) in
+        let s1 := set_owe (put_b s lb (bl_rot b hs)) (unowe (owe s) a) in
         match becoming (tgts s) a (b_ts b) with
         | Some t =>
           match nget (tgts s) t with
